@@ -392,6 +392,8 @@ class Program:
             for k, v in kws.items():
                 if isinstance(v, ast.Constant):
                     flags[k] = v.value
+                else:
+                    flags[k] = ('expr', ast.unparse(v))
             if last == 'njit':
                 flags['nopython'] = True
             f.tags['jit'] = flags
